@@ -462,4 +462,23 @@ theorem rleEncodeWithHeader_eq (xs : List Nat) (hx : ∀ x ∈ xs, x < 2 ^ 64) (
   simp only [hlen]
   cases given <;> simp [RLE.encH, storesFrom_append]
 
+
+/-- **`varintRLESize(values, n)`** (analysis into a local struct, then its `encodedSize`) = the model's size -/
+theorem rleSize_eq (xs : List Nat) (hx : ∀ x ∈ xs, x < 2 ^ 64) (hn : xs.length < 2 ^ 59)
+    (fuel : Nat) (hf : xs.length + 1 ≤ fuel) :
+    rleSize fuel (Bridge.Tagged.bufOf xs) xs.length = some (RLE.size xs) := by
+  unfold rleSize
+  rw [rleAnalyze_eq xs hx hn fuel hf]
+  rfl
+
+/-- **`varintRLEIsBeneficial(values, n)`**: true exactly when the encoding is smaller than the raw 8·n bytes -/
+theorem rleIsBeneficial_eq (xs : List Nat) (hx : ∀ x ∈ xs, x < 2 ^ 64) (hn : xs.length < 2 ^ 59)
+    (fuel : Nat) (hf : xs.length + 1 ≤ fuel) :
+    rleIsBeneficial fuel (Bridge.Tagged.bufOf xs) xs.length =
+      some (if xs ≠ [] ∧ RLE.size xs < 8 * xs.length then 1 else 0) := by
+  unfold rleIsBeneficial
+  rw [rleAnalyze_eq xs hx hn fuel hf]
+  simp only []
+  split <;> simp
+
 end Varint.Bridge.RLE
